@@ -72,6 +72,15 @@ storage carries `preBits`. -/
 def xpoaMatchQC (c : Chain) (view preBits : Nat) (es : List Entry) : Bool :=
   matchQC (xpoaValidatorsAt c view preBits) es
 
+/-- The justify certificate of a block: the height of the ledger block whose id it
+certifies (`cert`; the certificate's TRUE view), the view number it declares, its
+signature entries (`valid` = verifies over the certified id). -/
+structure Justify where
+  cert : Nat
+  view : Nat
+  es   : List Entry
+deriving Repr
+
 /-- A candidate block as `CheckMinerMatch` sees it. `pos` is the position its
 timestamp selects in the slot schedule (the harness always names the validator at
 that position as proposer); `justify = none`: the storage has no justify field. -/
@@ -79,10 +88,13 @@ structure Cand where
   height  : Nat
   ownBits : Nat
   pos     : Nat
-  justify : Option (Nat × List Entry)
+  justify : Option Justify
 deriving Repr
 
-/-- xpoa `CheckMinerMatch` with chained-bft enabled. -/
+/-- xpoa `CheckMinerMatch` with chained-bft enabled (after the repair `fix: xpoa
+CheckMinerMatch rejects a justify that does not certify the previous block`: the
+certified id must be the predecessor's and the declared view its height; before it
+the declared view alone selected the validator set). -/
 def xpoaCheckMinerMatch (c : Chain) (preBits : Nat) (b : Cand) : Bool :=
   match xpoaValidatorsAt c b.height b.ownBits with
   | none => false
@@ -91,7 +103,20 @@ def xpoaCheckMinerMatch (c : Chain) (preBits : Nat) (b : Cand) : Bool :=
     else if b.height ≤ c.start then true
     else match b.justify with
       | none => false
-      | some (view, es) => xpoaMatchQC c view preBits es
+      | some j =>
+        if j.cert ≠ b.height - 1 ∨ j.view ≠ b.height - 1 then false
+        else xpoaMatchQC c j.view preBits j.es
+
+/-- The same check WITHOUT the repair (the code as found): kept for the counterexample. -/
+def xpoaCheckMinerMatchUnbound (c : Chain) (preBits : Nat) (b : Cand) : Bool :=
+  match xpoaValidatorsAt c b.height b.ownBits with
+  | none => false
+  | some own =>
+    if own.length ≤ b.pos then false
+    else if b.height ≤ c.start then true
+    else match b.justify with
+      | none => false
+      | some j => xpoaMatchQC c j.view preBits j.es
 
 /-! ## tdpos -/
 
@@ -135,8 +160,11 @@ def tdMatchQC (c : TdChain) (preHeight preTerm preBits : Nat) (es : List Entry) 
   matchQC (tdValidatorsAt c preHeight preTerm preBits) es
 
 /-- tdpos `CheckMinerMatch` with chained-bft enabled, for a candidate whose
-timestamp lies in term `term` at position `pos` of the schedule. -/
-def tdCheckMinerMatch (c : TdChain) (preHeight preTerm preBits : Nat) (term : Nat) (b : Cand) : Bool :=
+timestamp lies in term `term` at position `pos` of the schedule; `preTerm` /
+`preBits`: term of the timestamp and rollback marker of its predecessor, ledger
+block `height - 1` (after the repair `fix: tdpos CheckMinerMatch rejects a justify
+that does not certify the previous block`). -/
+def tdCheckMinerMatch (c : TdChain) (preTerm preBits : Nat) (term : Nat) (b : Cand) : Bool :=
   match tdValidatorsAt c b.height term b.ownBits with
   | none => false
   | some own =>
@@ -144,6 +172,19 @@ def tdCheckMinerMatch (c : TdChain) (preHeight preTerm preBits : Nat) (term : Na
     else if b.height ≤ c.start then true
     else match b.justify with
       | none => false
-      | some (_, es) => tdMatchQC c preHeight preTerm preBits es
+      | some j =>
+        if j.cert ≠ b.height - 1 ∨ j.view ≠ b.height - 1 then false
+        else tdMatchQC c (b.height - 1) preTerm preBits j.es
+
+/-- The same check WITHOUT the repair (the code as found): the certificate may name any block. -/
+def tdCheckMinerMatchUnbound (c : TdChain) (preTerm preBits : Nat) (term : Nat) (b : Cand) : Bool :=
+  match tdValidatorsAt c b.height term b.ownBits with
+  | none => false
+  | some own =>
+    if own.length ≤ b.pos then false
+    else if b.height ≤ c.start then true
+    else match b.justify with
+      | none => false
+      | some j => tdMatchQC c (b.height - 1) preTerm preBits j.es
 
 end XV.BftMatch
